@@ -57,6 +57,10 @@ def corpus(tier):
           '*staff1', '*staff+1', '*staff1/2', '*staff', '*staffx', '*xywh-1:1,2,3,4', '*xywh-p 1:10,20,30,40', '*xywh-1:1,2,3', '*xywh1:1,2,3,4', '=1', '=1-||',
           '=1||;', '=:|!|:', '=:||:', '=:!!:', '==:|!', '=|!:', '=|!', '===', '====', '=1=', '=1:|!', '=!|', '=!', '=|', '=:', '=1x', '=a1', '*^', '*v', '*-', '*+', '*x',
           '**kern', '!!comment', '!', '!x', '*xywh-img:1', '*xywh-01:10,20,30', 'rit.', '.', 'rit', '=2', 'ri-', '*', 'rM', '*clefG2', 'cresc.', '=', 'dim.', '*xywh-01', '4c']
+    # texts that a well-meant clean-up would change (Unicode normal forms, case folding, trimming, collapsing blanks, escaping, number / literal parsing)
+    c += ['u\u0308ber', 'e\u0301', '\u212b', '\ufb01n', '\uff76', 'a\u00a0b', '\u00a0', 'a  b', ' a', 'a ', ' a ', 'A', 'Ab', 'aB', 'ÀÉ', 'ß', 'İ', 'a\u200db', '\ufeffa', 'a\u00adb',
+          '&amp;', '&', '<b>', 'a\\b', "'a'", '%41', '%', 'a%20b', '007', '1e3', '0x10', '1.0', '-0', '+1', 'True', 'None', 'null', 'nan', 'inf', '1_000', '1,5',
+          'a...', '…', '--', 'a--b', 'a_b', '_', '~', 'a~', '{a}', '{}', '$x', '@', '·', 'a@b', 'a·b', '\x7f', '\x01', 'a\x0bb', 'a\x0cb', 'a\x1cb', 'a\u2028b', 'a\x85b', '\r', 'a\rb']
     c += [''.join(p) for n in (1, 2) for p in itertools.product(ALPHA, repeat=n)]
     if tier != 'quick':
         c += [''.join(p) for p in itertools.product(SUB, repeat=3)]
